@@ -198,3 +198,281 @@ Proof.
     rewrite bound_max_eq in Hbl. rewrite wrap32s_id by lia. apply spec2_ret.
   - rewrite neg_check_sum_eq, bound_max_eq. cbn [negb orb]. change sm_umax with UINT_MAX. change (weight_in bnd) with (snd bnd <=? INT_MAX). btauto.
 Qed.
+
+(* ---- one rule ---- *)
+Ltac rt_reduce :=
+  cbn [Z.eqb Pos.eqb orb Sm_Basic Sm_Choice Sm_Disjunctive Sm_Cardinality Sm_Weight Sm_Optimize
+       Sm_ClaspIncrement Sm_ClaspAssignExt Sm_ClaspReleaseExt rule_type]; cbv iota.
+
+Lemma known_type_false t : known_type t = false ->
+  (t =? Sm_Choice) = false /\ (t =? Sm_Disjunctive) = false /\ (t =? Sm_Basic) = false /\ (t =? Sm_Cardinality) = false /\
+  (t =? Sm_Weight) = false /\ (t =? Sm_Optimize) = false /\ (t =? Sm_ClaspIncrement) = false /\
+  (t =? Sm_ClaspAssignExt) = false /\ (t =? Sm_ClaspReleaseExt) = false.
+Proof.
+  unfold known_type. cbn [existsb]. intros H. repeat (apply orb_false_elim in H; destruct H as [? H]). repeat split; assumption.
+Qed.
+
+Lemma read_rule_spec (o : opts) rl prio r ln : rule_ok rl = true -> delim r ->
+  spec2 (rule_in (claspExt o) rl) (read_rule o prio (rule_type rl) (amk (rule_fields rl ++ r) ln)) (d_rule prio rl) r.
+Proof.
+  intros Hok Hr. destruct rl as [tw h b|ch tw nw hs b|tw h b bnd|tw h bnd b wts|tw bnd b wts|tw z|tw a v|tw a|t];
+    cbn [rule_ok rule_fields rule_in d_rule] in *.
+  - (* basic *)
+    bsplit. destruct (num_ok_inv h ltac:(assumption)) as (_ & Hw & Hv). destruct (body_ok_inv b ltac:(assumption)) as (Hl & Hn & Ha).
+    unfold read_rule. rt_reduce. rewrite <- !app_assoc.
+    eapply spec2_eq; cycle 1.
+    + eapply spec2_bind. { apply m_atom_spec; [assumption | assumption | unfold r_counts, r_cnt; rewrite <- !app_assoc; now apply delim_sep]. }
+      intros _ ln1. cbv beta iota.
+      eapply spec2_bind. { apply m_body_spec; assumption. }
+      intros _ ln2. cbv beta iota. apply spec2_ret.
+    + btauto.
+  - (* choice / disjunctive *)
+    bsplit. destruct (body_ok_inv b ltac:(assumption)) as (Hl & Hn & Ha).
+    assert (E : read_rule o prio (rule_type (RMulti ch tw nw hs b)) = fun s =>
+      '(n, s1) <- m_atom s ;; '(hs, s2) <- m_many m_atom (fuel_of s1) n s1 ;; '(b, s3) <- m_body s2 ;;
+      Ok ([CRule (if ch then Head_t_Choice else Head_t_Disjunctive) hs b], prio, s3)).
+    { destruct ch; reflexivity. }
+    rewrite E. clear E. unfold r_cnt. rewrite <- !app_assoc.
+    eapply spec2_eq; cycle 1.
+    + eapply spec2_bind.
+      { change (nw ++ print_nat (Z.of_nat (length hs)) ++ ?x) with (r_num (nw, Z.of_nat (length hs)) ++ x).
+        apply (m_atom_spec (nw, Z.of_nat (length hs))); [now apply sep_ok_ws | cbn; lia |].
+        apply delim_nums; [assumption|]. unfold r_counts, r_cnt. rewrite <- !app_assoc. now apply delim_sep. }
+      intros _ ln1. cbv beta iota. cbn [snd].
+      eapply spec2_bind. { apply atoms_spec; [apply fuel_nums; assumption | assumption |]. unfold r_counts, r_cnt. rewrite <- !app_assoc. now apply delim_sep. }
+      intros _ ln2. cbv beta iota.
+      eapply spec2_bind. { apply m_body_spec; assumption. }
+      intros _ ln3. cbv beta iota. apply spec2_ret.
+    + unfold atom_in at 1. cbn [snd]. btauto.
+  - (* cardinality *)
+    bsplit. destruct (num_ok_inv h ltac:(assumption)) as (_ & Hw & Hv). destruct (body_ok_inv b ltac:(assumption)) as (Hl & Hn & Ha).
+    unfold read_rule. rt_reduce. rewrite <- !app_assoc.
+    eapply spec2_eq; cycle 1.
+    + eapply spec2_bind. { apply m_atom_spec; [assumption | assumption | unfold r_counts, r_cnt; rewrite <- !app_assoc; now apply delim_sep]. }
+      intros _ ln1. cbv beta iota.
+      eapply spec2_bind. { apply m_sum_c_spec; assumption. }
+      intros _ ln2. cbv beta iota. apply spec2_ret.
+    + btauto.
+  - (* weight *)
+    bsplit. destruct (num_ok_inv h ltac:(assumption)) as (_ & Hw & Hv).
+    unfold read_rule. rt_reduce. rewrite <- !app_assoc.
+    eapply spec2_eq; cycle 1.
+    + eapply spec2_bind. { apply m_atom_spec; [assumption | assumption | now apply delim_num]. }
+      intros _ ln1. cbv beta iota.
+      eapply spec2_bind. { apply m_sum_w_spec; try assumption. now apply Nat.eqb_eq. }
+      intros _ ln2. cbv beta iota. apply spec2_ret.
+    + btauto.
+  - (* optimize *)
+    bsplit. unfold read_rule. rt_reduce. rewrite <- !app_assoc.
+    eapply spec2_eq; cycle 1.
+    + eapply spec2_bind. { apply m_sum_w_spec; try assumption. now apply Nat.eqb_eq. }
+      intros _ ln2. cbv beta iota. apply spec2_ret.
+    + btauto.
+  - (* 90 *)
+    destruct (num_ok_inv z Hok) as (_ & Hw & Hv).
+    unfold read_rule. rt_reduce. destruct (claspExt o); cbn [andb]; [|eexists; reflexivity].
+    eapply spec2_eq; cycle 1.
+    + eapply spec2_bind. { apply m_pos_spec; [apply umax_le | assumption | assumption | assumption]. }
+      intros _ ln1. cbv beta iota. apply spec2_require. intros _. apply spec2_ret.
+    + unfold count_in. change sm_umax with UINT_MAX. btauto.
+  - (* 91 *)
+    bsplit. destruct (num_ok_inv a ltac:(assumption)) as (_ & Hw & Hv). destruct (num_ok_inv v ltac:(assumption)) as (_ & Hw2 & Hv2).
+    unfold read_rule. rt_reduce. destruct (claspExt o); cbn [andb]; [|eexists; reflexivity].
+    eapply spec2_bind. { apply m_atom_spec; [assumption | assumption | now apply delim_num]. }
+    intros _ ln1. cbv beta iota.
+    rewrite <- (andb_true_r (snd v <=? 2)).
+    eapply spec2_bind. { apply (m_pos_spec sm_extval_max); [unfold sm_extval_max, INT64_MAX; lia | assumption | assumption | assumption]. }
+    intros Hle ln2. cbv beta iota.
+    assert (Ev : Z.lxor (snd v) sm_extval_xor - sm_extval_sub =
+                 (if snd v =? 0 then Value_t_False else if snd v =? 1 then Value_t_True else Value_t_Free)).
+    { change sm_extval_max with 2 in Hle. assert (Hc : snd v = 0 \/ snd v = 1 \/ snd v = 2) by lia.
+      destruct Hc as [-> | [-> | ->]]; reflexivity. }
+    rewrite Ev. apply spec2_ret.
+  - (* 92 *)
+    destruct (num_ok_inv a Hok) as (_ & Hw & Hv).
+    unfold read_rule. rt_reduce. destruct (claspExt o); cbn [andb]; [|eexists; reflexivity].
+    rewrite <- (andb_true_r (atom_in a)).
+    eapply spec2_bind. { apply m_atom_spec; assumption. }
+    intros _ ln1. cbv beta iota. apply spec2_ret.
+  - (* unknown type *)
+    bsplit. apply negb_true_iff in H0. destruct (known_type_false _ H0) as (E1 & E2 & E3 & E4 & E5 & E6 & E7 & E8 & E9).
+    unfold read_rule. cbn [rule_type]. rewrite E1, E2, E3, E4, E5, E6, E7, E8, E9. cbn [orb]. eexists. reflexivity.
+Qed.
+
+(* ---- results that carry calls ---- *)
+Definition cspec (b : bool) (m : cres ast) (cs : list call) (r : list Z) : Prop :=
+  if b then exists ln, m = (cs, Ok (amk r ln)) else exists cs' ln, m = (cs', Err ln).
+
+Lemma hd_nonws_digits v x : 0 <= v -> match print_nat v ++ x with [] => True | c :: _ => is_ws c = false end.
+Proof. apply hd_ws_false_of_digits. Qed.
+
+Lemma print_nat_len v : 0 <= v -> (1 <= length (print_nat v))%nat.
+Proof. intros H. pose proof (print_nat_nonempty v H). destruct (print_nat v); [congruence | cbn; lia]. Qed.
+
+Lemma rule_type_nonneg rl : rule_ok rl = true -> 1 <= rule_type rl.
+Proof. destruct rl; cbn; try destruct choice; intros H; try (unfold Sm_Basic, Sm_Choice, Sm_Disjunctive, Sm_Cardinality, Sm_Weight, Sm_Optimize, Sm_ClaspIncrement, Sm_ClaspAssignExt, Sm_ClaspReleaseExt; lia). bsplit. lia. Qed.
+
+Lemma delim_fields rl x : rule_ok rl = true -> delim x -> delim (rule_fields rl ++ x).
+Proof.
+  intros H Hx. destruct rl; cbn [rule_fields rule_ok] in *; bsplit; rewrite <- ?app_assoc;
+    try (apply delim_num; assumption); try assumption.
+  unfold r_cnt. rewrite <- app_assoc. now apply delim_sep.
+Qed.
+
+Lemma len_rules l : (length l <= length (flat_map r_rule l))%nat.
+Proof.
+  induction l as [|rl l IH]; [cbn; lia|]. cbn [flat_map length]. rewrite app_length. unfold r_rule at 1.
+  rewrite !app_length.
+Abort.
+
+Lemma read_rules_spec (o : opts) : forall l lead fuel prio w r ln,
+  (length l < fuel)%nat -> rules_ok lead l = true -> front_ok (lead || negb (isnil l)) w = true -> delim r ->
+  cspec (forallb (rule_in (claspExt o)) l)
+        (read_rules fuel o prio (amk (flat_map r_rule l ++ r_zero w ++ r) ln)) (d_rules prio l) r.
+Proof.
+  induction l as [|rl l IH]; intros lead fuel prio w r ln Hfu Hok Hw Hr.
+  - destruct fuel as [|fu]; [cbn in Hfu; lia|]. cbn [flat_map app forallb d_rules read_rules]. unfold r_zero. rewrite <- app_assoc.
+    assert (Hp : spec2 (0 <=? sm_rt_max) (m_pos sm_rt_max (amk (w ++ print_nat 0 ++ r) ln)) 0 r).
+    { apply m_pos_spec'; [unfold sm_rt_max, INT64_MAX; lia | now apply front_ok_ws in Hw | lia | assumption]. }
+    change (print_nat 0) with [48] in Hp. cbn [app] in Hp. cbn [app]. destruct Hp as [ln1 E]. rewrite E.
+    change (0 =? 0) with true. cbv iota. exists ln1. reflexivity.
+  - destruct fuel as [|fu]; [cbn in Hfu; lia|]. cbn [rules_ok] in Hok. bsplit.
+    cbn [flat_map forallb d_rules read_rules]. unfold r_rule at 1. rewrite <- !app_assoc.
+    assert (Hnext : delim (flat_map r_rule l ++ r_zero w ++ r)).
+    { destruct l as [|r2 l2].
+      - cbn [flat_map app]. unfold r_zero. rewrite <- app_assoc. apply delim_sep.
+        cbn [isnil negb] in Hw. rewrite orb_true_r in Hw. exact Hw.
+      - cbn [flat_map]. unfold r_rule at 1. rewrite <- !app_assoc. apply delim_sep.
+        cbn [rules_ok] in H1. bsplit. assumption. }
+    pose proof (rule_type_nonneg rl ltac:(assumption)) as Hty.
+    assert (Hp : spec2 (rule_type rl <=? sm_rt_max)
+               (m_pos sm_rt_max (amk (rule_tw rl ++ print_nat (rule_type rl) ++ rule_fields rl ++ flat_map r_rule l ++ r_zero w ++ r) ln))
+               (rule_type rl) (rule_fields rl ++ flat_map r_rule l ++ r_zero w ++ r)).
+    { apply m_pos_spec'; [unfold sm_rt_max, INT64_MAX; lia | eapply front_ok_ws; eassumption | lia | now apply delim_fields]. }
+    destruct (rule_type rl <=? sm_rt_max) eqn:Ert.
+    + destruct Hp as [ln1 E]. rewrite E. destruct (Z.eqb_spec (rule_type rl) 0) as [E0|_]; [lia|].
+      pose proof (read_rule_spec o rl prio (flat_map r_rule l ++ r_zero w ++ r) ln1 ltac:(assumption) Hnext) as Hrule.
+      destruct (rule_in (claspExt o) rl) eqn:Ein; cbn [andb].
+      * destruct Hrule as [ln2 E2]. rewrite E2.
+        specialize (IH true fu (snd (d_rule prio rl)) w r ln2 ltac:(cbn in Hfu; lia) ltac:(assumption)
+                       ltac:(cbn [orb]; cbn [isnil negb orb] in Hw; rewrite orb_true_r in Hw; exact Hw) Hr).
+        destruct (d_rule prio rl) as [cs prio']. cbn [fst snd] in *.
+        destruct (forallb (rule_in (claspExt o)) l).
+        -- destruct IH as [ln3 E3]. rewrite E3. exists ln3. reflexivity.
+        -- destruct IH as (cs' & ln3 & E3). rewrite E3. eexists _, ln3. reflexivity.
+      * destruct Hrule as [ln2 E2]. rewrite E2. eexists _, ln2. reflexivity.
+    + (* a known or unknown type above the limit of matchPos cannot be in range *)
+      destruct Hp as [ln1 E]. rewrite E.
+      assert (rule_in (claspExt o) rl = false).
+      { destruct rl; cbn [rule_type rule_in] in *; try destruct choice; try reflexivity; vm_compute in Ert; discriminate. }
+      rewrite H2. cbn [andb]. eexists _, ln1. reflexivity.
+Qed.
+
+(* ---- line breaks that belong to the next token's whitespace ---- *)
+Definition nonws_hd (x : list Z) : Prop := match x with [] => True | c :: _ => is_ws c = false end.
+
+Lemma a_get_plain c r ln : c <> 13 -> exists ln', a_get (amk (c :: r) ln) = (c, amk r ln').
+Proof.
+  intros H. unfold a_get. cbn [rest aline]. destruct (Z.eqb_spec c 13); [contradiction|].
+  destruct (Z.eqb_spec c 10) as [->|_]; eauto.
+Qed.
+
+Lemma nl_strip w x ln : nl_ok w = true -> nonws_hd x ->
+  exists w' ln', ws_ok w' = true /\ a_get (amk (w ++ x) ln) = (10, amk (w' ++ x) ln').
+Proof.
+  unfold nl_ok. intros H Hx. bsplit. destruct w as [|c w0]; [discriminate|]. cbn in H. bsplit.
+  unfold is_nl in H0. apply orb_prop in H0. destruct H0 as [E|E]; apply Z.eqb_eq in E; subst c.
+  - exists w0, (ln + 1). split; [assumption|]. reflexivity.
+  - unfold a_get. cbn [rest aline app]. change (13 =? 13) with true. cbv iota. rewrite match10.
+    destruct w0 as [|d w1].
+    + cbn [app]. destruct x as [|e x]; cbn [hd tl].
+      * exists [], (ln + 1). split; reflexivity.
+      * destruct (Z.eqb_spec e 10) as [->|_]; [cbn in Hx; discriminate|]. exists [], (ln + 1). split; reflexivity.
+    + cbn [app hd tl]. cbn in H1. bsplit. destruct (Z.eqb_spec d 10) as [->|_].
+      * exists w1, (ln + 1). split; [assumption | reflexivity].
+      * exists (d :: w1), (ln + 1). split; [cbn; rewrite H0, H1; reflexivity | reflexivity].
+Qed.
+
+Lemma read_name_spec : forall n fuel w x ln, (length n < fuel)%nat -> name_ok n = true -> nl_ok w = true -> nonws_hd x ->
+  exists w' ln', ws_ok w' = true /\ read_name fuel (amk (n ++ w ++ x) ln) = Ok (n, amk (w' ++ x) ln').
+Proof.
+  induction n as [|c n IH]; intros fuel w x ln Hfu Hn Hw Hx; (destruct fuel as [|fu]; [cbn in Hfu; lia|]).
+  - cbn [app read_name]. destruct (nl_strip w x ln Hw Hx) as (w' & ln' & Hw' & E). rewrite E.
+    change (10 =? 10) with true. cbv iota. eauto.
+  - cbn in Hn. bsplit. apply negb_true_iff in H. apply orb_false_elim in H. destruct H as [H H13].
+    apply orb_false_elim in H. destruct H as [H0 H10].
+    cbn [app read_name]. destruct (a_get_plain c (n ++ w ++ x) ln ltac:(lia)) as [ln1 E]. rewrite E.
+    rewrite H10, H0. destruct (IH fu w x ln1 ltac:(cbn in Hfu; lia) ltac:(assumption) Hw Hx) as (w' & ln' & Hw' & E2).
+    rewrite E2. cbn [bind]. eauto.
+Qed.
+
+(* ---- symbol table ---- *)
+Definition sfw (l : list lsym) (w : list Z) : list Z := match l with [] => w | y :: _ => fst (y_atom y) end.
+Definition sbody (l : list lsym) (w : list Z) : list Z :=
+  match l with
+  | [] => [48]
+  | y :: l' => print_nat (snd (y_atom y)) ++ y_sep y :: y_name y ++ flat_map r_sym l' ++ r_zero w
+  end.
+Fixpoint syms_in_ok (l : list lsym) (w : list Z) : bool :=
+  match l with
+  | [] => true
+  | y :: l' => (1 <=? snd (y_atom y)) && negb ((y_sep y =? 0) || (y_sep y =? 13) || is_digit (y_sep y)) && name_ok (y_name y)
+               && nl_ok (sfw l' w) && syms_in_ok l' w
+  end.
+Lemma syms_text l w : flat_map r_sym l ++ r_zero w = sfw l w ++ sbody l w.
+Proof.
+  destruct l as [|y l]; [reflexivity|]. cbn [flat_map sfw sbody]. unfold r_sym at 1, r_num. rewrite <- !app_assoc. reflexivity.
+Qed.
+Lemma syms_ok_in a l w : syms_ok a l = true -> end_ok (negb (isnil l)) w = true ->
+  syms_in_ok l w = true /\ (if a then nl_ok (sfw l w) else sep_ok (sfw l w)) = true \/ (l = [] /\ syms_in_ok l w = true).
+Proof.
+  revert a. induction l as [|y l IH]; intros a H Hw; [right; split; reflexivity|].
+  left. cbn [syms_ok] in H. bsplit. cbn [syms_in_ok sfw]. cbn [isnil negb] in Hw.
+  assert (Hn : nl_ok (sfw l w) = true /\ syms_in_ok l w = true).
+  { destruct l as [|y2 l2].
+    - cbn [sfw syms_in_ok]. split; [exact Hw | reflexivity].
+    - destruct (IH true ltac:(assumption) Hw) as [[Hi Hf]|[C _]]; [|discriminate]. split; assumption. }
+  destruct Hn as [Hn1 Hn2]. rewrite H3, H2, H1, Hn1, Hn2. split; [reflexivity | assumption].
+Qed.
+
+Lemma read_symbols_spec : forall l fuel w0 w r ln, (length l < fuel)%nat ->
+  ws_ok w0 = true -> syms_in_ok l w = true -> delim r ->
+  cspec (forallb (fun y => atom_in (y_atom y)) l)
+        (read_symbols fuel (amk (w0 ++ sbody l w ++ r) ln))
+        (map (fun y => COutput (y_name y) [snd (y_atom y)]) l) r.
+Proof.
+  induction l as [|y l IH]; intros fuel w0 w r ln Hfu Hw0 Hin Hr; (destruct fuel as [|fu]; [cbn in Hfu; lia|]).
+  - cbn [sbody forallb map read_symbols].
+    assert (Hp : spec2 (0 <=? sm_sym_max) (m_pos sm_sym_max (amk (w0 ++ print_nat 0 ++ r) ln)) 0 r).
+    { apply m_pos_spec'; [unfold sm_sym_max, INT64_MAX; lia | assumption | lia | assumption]. }
+    change (print_nat 0) with [48] in Hp. destruct Hp as [ln1 E]. rewrite E.
+    change (wrap32s 0 =? 0) with true. cbv iota. exists ln1. reflexivity.
+  - cbn [syms_in_ok] in Hin. bsplit. cbn [sbody forallb map read_symbols]. rewrite <- !app_assoc.
+    assert (Hv : 1 <= snd (y_atom y)) by lia.
+    apply negb_true_iff in H3. apply orb_false_elim in H3. destruct H3 as [H3 Hsd].
+    apply orb_false_elim in H3. destruct H3 as [Hs0 Hs13].
+    assert (Hp : spec2 (snd (y_atom y) <=? sm_sym_max)
+                   (m_pos sm_sym_max (amk (w0 ++ print_nat (snd (y_atom y)) ++ (y_sep y :: y_name y ++ flat_map r_sym l ++ r_zero w) ++ r) ln))
+                   (snd (y_atom y)) ((y_sep y :: y_name y ++ flat_map r_sym l ++ r_zero w) ++ r)).
+    { apply m_pos_spec'; [unfold sm_sym_max, INT64_MAX; lia | assumption | lia |]. cbn [app]. apply delim_cons. exact Hsd. }
+    cbn [app] in Hp. cbn [app]. rewrite sym_max_eq in *. unfold atom_in at 1.
+    assert (E1 : (1 <=? snd (y_atom y)) = true) by lia. rewrite E1. cbn [andb].
+    destruct (snd (y_atom y) <=? atomMax) eqn:Emax; cbn [andb].
+    + destruct Hp as [ln1 E]. rewrite E.
+      rewrite wrap32s_id by (unfold INT_MAX; unfold atomMax in Emax; lia).
+      destruct (Z.eqb_spec (snd (y_atom y)) 0); [lia|].
+      destruct (a_get_plain (y_sep y) (y_name y ++ (flat_map r_sym l ++ r_zero w) ++ r) ln1 ltac:(lia)) as [ln2 E2].
+      rewrite E2. cbn [snd].
+      rewrite <- app_assoc. rewrite (app_assoc (flat_map r_sym l)), syms_text, <- app_assoc.
+      destruct (read_name_spec (y_name y) (fuel_of (amk (y_name y ++ sfw l w ++ sbody l w ++ r) ln2)) (sfw l w) (sbody l w ++ r) ln2)
+        as (w' & ln3 & Hw' & E3); try assumption.
+      { unfold fuel_of. cbn [rest]. rewrite app_length. lia. }
+      { destruct l as [|y2 l2]; cbn [sbody app]; [reflexivity|]. cbn [syms_in_ok] in H0. bsplit.
+        rewrite <- app_assoc. apply hd_nonws_digits. lia. }
+      rewrite E3.
+      specialize (IH fu w' w r ln3 ltac:(cbn in Hfu; lia) Hw' ltac:(assumption) Hr).
+      destruct (forallb (fun y0 => atom_in (y_atom y0)) l).
+      * destruct IH as [ln4 E4]. rewrite E4. exists ln4. reflexivity.
+      * destruct IH as (cs' & ln4 & E4). rewrite E4. eexists _, ln4. reflexivity.
+    + destruct Hp as [ln1 E]. rewrite E. eexists _, ln1. reflexivity.
+Qed.
